@@ -22,6 +22,18 @@ claim("C14", "proof",
       "decision-table extraction from MIR (dataflow) + exhaustive ordering enumeration of the extracted terms",
       "DESIGN.md §3 C14")
 
+claim("C04", "other",
+      "Per-step obligations decided on decision tables extracted from MIR for every path: fresh version = old max+1 on every "
+      "writing path of the four mutators and exactly the specified no-op paths; complete writer inventory of the frontier "
+      "fields with a monotonicity check of each writer's extracted term; raw setters confined to catch-up with "
+      "max(current, supplied); stale inserts ignored; the two monotonicity assertions on the receive path implied for "
+      "arbitrary (not only honest) deltas over all orderings 0..5 of (rg,rm,from,dg,dm).",
+      "Not decided: 'under any delivery order' as a statement over sequences — it follows by induction from the per-step "
+      "obligations (argued in DESIGN, not checked). Assumes no u64 overflow of max_version+1, BTreeMap semantics, and the "
+      "decoder invariant R09.3 (checked under C09) for the max-version assertion.",
+      "decision-table extraction + writer/caller inventories over MIR + ordering enumeration of extracted terms",
+      "DESIGN.md §3 C04")
+
 ALL = ["C%02d" % i for i in range(1, 21)]
 PENDING_REASON = "check under construction in this session (rules designed in DESIGN.md §3, not yet armed)"
 
